@@ -23,6 +23,10 @@ const (
 	defaultBindingRefreshInterval = 5 * time.Minute
 	defaultBindingCheckInterval   = 30 * time.Second
 	maxRetryAttempts              = 3
+	// Largest payload WriteTo accepts: what fits a Send indication (16-bit message length) next
+	// to its other attributes (DATA header and padding, XOR-PEER-ADDRESS of an IPv6 peer,
+	// FINGERPRINT). ChannelData could carry 40 bytes more; one limit for both.
+	maxPayloadSize = 0xFFFF - 40
 )
 
 const (
@@ -223,6 +227,17 @@ func (c *UDPConn) WriteTo(payload []byte, addr net.Addr) (int, error) { //nolint
 			Net:  c.LocalAddr().Network(),
 			Addr: c.LocalAddr(),
 			Err:  errClosed,
+		}
+	}
+
+	// The length fields of a Send indication and of a ChannelData message have 16 bits: a
+	// longer payload would go out with a wrapped length (and break the framing of a stream).
+	if len(payload) > maxPayloadSize {
+		return 0, &net.OpError{
+			Op:   "write",
+			Net:  c.LocalAddr().Network(),
+			Addr: c.LocalAddr(),
+			Err:  errPayloadTooLarge,
 		}
 	}
 
